@@ -20,11 +20,11 @@ EXPLANATION = (
     "component has and the target constructor accepts; (R4) every explicit raise in the transformation methods is "
     "SchemaInitError or ValueError; (R3 also reads **splat forwarding: a comprehension over Column.properties may "
     "exclude keys by name only, never by the truthiness of the value); (R5) no transformation re-keys a column by "
-    "pop-and-insert (which moves it to the end of the mapping and breaks column order / the rename-back law). NOT decided: that the transformed schema accepts exactly the transformed "
+    "pop-and-insert (which moves it to the end of the mapping and breaks column order / the rename-back law); (R6) update_column(s) apply the caller's overrides unfiltered (None removes a property); (R7) add_columns admits the new columns through the schema constructor so that invalid requests raise. NOT decided: that the transformed schema accepts exactly the transformed "
     "frames; inverse laws on values."
 )
 LEVEL_RULE = "one obligation per (method) / (constructor parameter) / (constructor call, attribute) / raise"
-FLOORS = {"R1": 10, "R2": 28, "R3": 20, "R4": 8, "R5": 10}
+FLOORS = {"R1": 10, "R2": 28, "R3": 20, "R4": 8, "R5": 10, "R6": 2, "R7": 1}
 
 COLUMN_CLASSES = ["pandera/api/pandas/components.py::Column", "pandera/api/polars/components.py::Column"]
 # attributes that a conversion between Column and Index legitimately sets itself / cannot carry over
@@ -259,11 +259,87 @@ def r5_order(ctx):
                    f.loc(moved[0]) if moved else "")
 
 
+def r6_update_unfiltered(ctx):
+    """update_column / update_columns override a property with exactly what the caller passed - including None, which
+    is how a dtype / checks / default is removed.  Filtering the overrides by value keeps the old property silently."""
+    from ..util import Expander
+    ix = ctx.ix
+    cont = ix.cls("pandera/api/dataframe/container.py::DataFrameSchema")
+    f = cont.method("update_column")
+    if f is None or f.node.args.kwarg is None:
+        raise AnalysisError("update_column(**kwargs) missing")
+    ctx.touched(f)
+    kwname = f.node.args.kwarg.arg
+    ex = Expander(f.node)
+    ctors = [c for c in calls_in(f.node) if any(k.arg is None for k in c.keywords) and
+             (txt(c.func).endswith(".__class__") or callee_last(c) in ("Column", "type"))]
+    if not ctors:
+        raise AnalysisError("update_column: column constructor call not found")
+    for c in ctors:
+        for k in c.keywords:
+            if k.arg is not None:
+                continue
+            d = ex.expand(k.value)
+            srcs = []
+            if isinstance(d, ast.Dict):
+                for kk, vv in zip(d.keys, d.values):
+                    if kk is None:
+                        srcs.append(ex.expand(vv))
+            else:
+                srcs.append(d)
+            last = srcs[-1] if srcs else None
+            ok = isinstance(last, ast.Name) and last.id == kwname
+            ctx.ob("R6", f, "update_column: the caller's overrides are merged last and unfiltered", ok,
+                   f"**{{**properties, **{kwname}}}" if ok else
+                   f"the overrides merged over the old properties are `{txt(last)[:80] if last is not None else None}`, not `{kwname}` itself: a filter "
+                   "on the value (e.g. `if v is not None`) makes update_column(name, dtype=None / checks=None / default=None) keep the old "
+                   "property, unlike update_columns and unlike the documented meaning", f.loc(c))
+    g = cont.method("update_columns")
+    ctx.touched(g)
+    up = g.positional[1] if len(g.positional) > 1 else "update_dict"
+    ups = [c for c in calls_in(g.node) if callee_last(c) == "update" and c.args]
+    ok = bool(ups) and all(isinstance(c.args[0], ast.Subscript) and txt(c.args[0].value) == up for c in ups)
+    ctx.ob("R6", g, "update_columns: the per-column overrides are applied unfiltered", ok,
+           f"properties.update({up}[col])" if ok else "the overrides are transformed before being applied")
+
+
+def r7_add_columns_admission(ctx):
+    """Columns handed to add_columns are admitted through the schema constructor (which validates them, e.g. that
+    groupby references name declared columns): an invalid request raises SchemaInitError instead of yielding a schema that
+    can only fail later."""
+    from ..util import Expander
+    ix = ctx.ix
+    seen = set()
+    for q in SCHEMA_CLASSES:
+        c = ix.cls(q)
+        f = c.lookup("add_columns")
+        if f is None or f.qual in seen:
+            continue
+        seen.add(f.qual)
+        ctx.touched(f)
+        ex = Expander(f.node)
+        stores = [s for s in walk_no_nested(f.node) if isinstance(s, ast.Assign) and isinstance(s.targets[0], ast.Attribute) and s.targets[0].attr == "columns"]
+        validated = any(callee_last(c2) in ("_validate_columns", "_validate_schema") for c2 in calls_in(f.node))
+        through_ctor = False
+        for s_ in stores:
+            for e in ex.closure(s_.value):
+                for x in ast.walk(e):
+                    if isinstance(x, ast.Call) and (txt(x.func) in ("self.__class__", "type(self)", "cls") or callee_last(x) == "DataFrameSchema"):
+                        through_ctor = True
+        ok = validated or through_ctor
+        ctx.ob("R7", f, f"{f.short}: new columns are admitted through the schema constructor", ok,
+               "self.__class__(extra_columns).columns" if ok else
+               "the new columns are merged without constructing a schema from them: the constructor's validation (groupby columns exist, ...) is "
+               "skipped, so an invalid request returns a schema instead of raising SchemaInitError", f.loc(stores[0]) if stores else "")
+
+
 def run(ctx):
     r1_purity(ctx)
     r2_properties(ctx)
     r3_forwarding(ctx)
     r4_raises(ctx)
     r5_order(ctx)
+    r6_update_unfiltered(ctx)
+    r7_add_columns_admission(ctx)
     ctx.assume("copy.deepcopy yields an independent object; copy.copy is independent at the top level unless the class "
                "restores `__dict__ = state` (modelled)")
